@@ -84,7 +84,7 @@ def handle (line : String) : String :=
       let mMulti : List AList := o.solutions.getD []
       let eqS := decide (mSingle = s1)
       let eqM := decide (mMulti = ms)
-      let mirror := Val.arr [Val.str (if o.status == .UNBOUNDED then "FUEL" else o.status.name),
+      let mirror := Val.arr [Val.str (if o.status == .UNBOUNDED then (if o.note == "" then "FUEL" else o.note) else o.status.name),
         Val.ofOpt asgVal o.solution, Val.ofOpt (fun (x : List AList) => Val.int x.length) o.solutions,
         Val.bool eqS, Val.bool eqM,
         Val.arr [Val.int o.decisions, Val.int o.propagations, Val.int o.conflicts, Val.int o.restarts,
